@@ -1,5 +1,5 @@
 """C16 — aggregations are exact over the whole match set."""
-GEN = True             # go/extract/c16.go: dedupNeeded, rangeFieldsNested, sharedMutable (every Calculator() builds fresh state),
+GEN = True             # go/extract/c16.go: dedupNeeded, rangeFieldsNested, sharedMutable (every Calculator() builds fresh state), sourceWritesThrough (no source writes through a foreign slice),
                        # statement order of collectSingle and AllIterator.Next
 STATELESS = False          # a case = one generated corpus + its requests
 REQUIRED_BRANCHES = [
@@ -11,6 +11,11 @@ REQUIRED_BRANCHES = [
     # sketches nested under terms / range buckets, several non-empty buckets; aggregation definitions re-used by later requests
     # date range bounds outside the window int64 nanoseconds can represent (years 1, 1600, 1677, 2263, 9999), some with matches inside
     "date-bound-outside-int64-nanos", "date-range-far-bound-nonempty", "date-bound:outside-int64-nanos",
+    # filtering sources (FilterText/FilterNumeric/FilterDate) at the root and as the source of terms/range/metric aggregations;
+    # a bucket aggregation over a filtered source with a nested reader of the SAME plain field; a filter that drops a
+    # value stored before one it keeps, on such a request
+    "filtered-source", "filtered-source-nested-reader-same-field", "filter-drops-an-earlier-value-with-nested-reader",
+    "src:filtered-with-nested-reader-of-same-field", "src:filtered:terms", "src:filtered:ranges", "src:filtered:dranges",
     "nested-quantiles", "nested-cardinality", "nested-sketch-several-buckets", "nested:quant", "nested:card", "def:reused",
 ]
 ASSUMPTIONS = [
@@ -24,6 +29,9 @@ ASSUMPTIONS = [
     "hyperloglog and go-tdigest internals: the calculators are proved to feed them exactly the matched values; every sketch "
     "(top level and per terms / range bucket) is compared with the same Go sketch type fed directly with that bucket's values; "
     "quantile in [min,max] of those values and monotone in the rank is checked per sketch, not proved",
+    "a value source is a function of the hit and does not change it: regenerated fact sourceWritesThrough = [] (no re-slicing / "
+    "assigning into / appending to a slice obtained from the match or another source), exercised by nested readers of the same field "
+    "under filtered bucket sources",
     "one calculator's state is its own: regenerated fact sharedMutable = [] (no Calculator() hands a mutable field of the "
     "aggregation definition to the calculator), exercised by re-using the same definition objects across requests",
     "uint64(count) reads the float64 sum of 1.0 per Consume exactly (below 2^53 matches)",
